@@ -1,11 +1,11 @@
-import Physt.Driver
+import Physt.DriverND
 
 partial def loop (h : IO.FS.Stream) (out : IO.FS.Stream) : IO Unit := do
   let line ← h.getLine
   if line.isEmpty then return ()
   let t := line.trimAscii.toString
   if !t.isEmpty then
-    out.putStrLn (Physt.Driver.handleLine t)
+    out.putStrLn (Physt.Driver.handleLineAll t)
   loop h out
 
 def main : IO Unit := do
